@@ -7,6 +7,7 @@ import OpusProofs.RangeCoderFlags
 import OpusProofs.RangeCoderCodes
 import OpusProofs.SilkSymsEncRoundTrip
 import OpusProofs.OpusFrameSilk
+import OpusProofs.OpusFrameRed
 /-
   Property C08 — "Range coder: the decoder inverts the encoder symbol for symbol, within budget".
 
@@ -552,6 +553,155 @@ example : (encodeAll (List.replicate 100 170) 100 (packetOps (silkCfg 1101 1 100
     (silkOnlyFrame (List.replicate 100 170) 101 (silkCfg 1101 1 100) exampleMonoPacket).payload.length = 31 ∧
     (match decodeOpusFrame 1000 1101 1 100 false {} (silkOnlyFrame (List.replicate 100 170) 101 (silkCfg 1101 1 100) exampleMonoPacket).payload with
      | .ok o => decide (o.dec.rng = (silkOnlyFrame (List.replicate 100 170) 101 (silkCfg 1101 1 100) exampleMonoPacket).rangeFinal ∧ o.redundancy = 0)
+     | _ => false) = true := by
+  decide +kernel
+
+open Opus.SilkSyms Opus.SilkSymsEnc Opus.SilkSymsEncProofs Opus.OpusFrameEnc Opus.OpusFrameProofs in
+/-- Frame-level lock step for a SILK-only frame WITH redundancy (mode transition: a separately coded 5 ms CELT
+    frame of `R.length` bytes follows the main part; opus_encoder.c:2239-2263, 2271-2275, 2306-2320 / 2399-2413, 2421).
+    Encoder model `silkRedFrame`: SILK payload, `ec_enc_bit_logp(celt_to_silk, 1)`, `ret = (ec_tell+7)>>3`, `ec_enc_done`,
+    frame = first `ret` bytes (no strip) ++ `R`, `rangeFinal = enc.rng ^ rr`.  Decoder: C03's `decodeOpusFrame` on the whole
+    frame — its range decoder is initialised on `ret + R.length` bytes, so it READS INTO the redundancy bytes while decoding the
+    SILK part; that this is harmless is proved (`encDone_contains_ext`: every stream that starts with the bytes `ec_enc_done`
+    wrote has its code value in the final interval) — then `decRangeFinal` (opus_decoder.c:558-616, 670-673).
+    Conclusion: the decoder infers redundancy from the length, reads `celt_to_silk` back, computes `redundancy_bytes = R.length`,
+    reports the encoded SILK events, is in lock step with the encoder (`dec.rng = enc.rng`, error 0), and its final range
+    `dec.rng ^ redundant_rng` equals the encoder's `rangeFinal`.
+    Hypotheses that remain: the DSP decisions (`PacketIn`, `celt_to_silk`); `hgate`, the decoder's length test
+    `ec_tell_after_SILK + 17 ≤ 8·len` — C02 `redundancy_mirror_silk` derives it from the encoder's own test and its
+    `redundancy_bytes` clamp; `hfit`/`herr`, the encoder's normal path; and `hred : CeltFrameRT`, the round trip of the
+    redundancy CELT frame as far as the final range is concerned (C17's `celt_frame_roundtrip` is to discharge it). -/
+theorem opus_frame_lockstep_silk_red (buf : List Nat) (maxData bandwidth nCh ms10 spf48 : Nat) (pk : PacketIn) (st : SilkSt)
+    (c2s : Nat) (R : Bytes) (rr : Nat)
+    (hbw : bandwidth = 1101 ∨ bandwidth = 1102 ∨ bandwidth = 1103)
+    (hms : ms10 = 100 ∨ ms10 = 200 ∨ ms10 = 400 ∨ ms10 = 600)
+    (hs : maxData - 1 ≤ buf.length) (hb : BytesOk buf) (hok : PacketOk (silkCfg bandwidth nCh ms10) pk)
+    (hc2s : c2s ≤ 1) (hR : BytesOk R)
+    (hn : (encodeAll buf (maxData - 1) (packetOps (silkCfg bandwidth nCh ms10) pk ++ redSigOps false true 1 c2s R.length)).nbitsTotal < 4294967296)
+    (herr : (encodeAll buf (maxData - 1) (packetOps (silkCfg bandwidth nCh ms10) pk ++ redSigOps false true 1 c2s R.length)).error = 0)
+    (hfit : tell (encRun (encInit buf (maxData - 1)) (packetOps (silkCfg bandwidth nCh ms10) pk ++ redSigOps false true 1 c2s R.length)) ≤
+      8 * ((maxData - 1 : Nat) : Int))
+    (hgate : tell (encRun (encInit buf (maxData - 1)) (packetOps (silkCfg bandwidth nCh ms10) pk)) + 17 ≤
+      8 * (((tell (encRun (encInit buf (maxData - 1)) (packetOps (silkCfg bandwidth nCh ms10) pk ++ redSigOps false true 1 c2s R.length)) + 7) / 8) +
+        (R.length : Int)))
+    (hred : CeltFrameRT { start := 0, end_ := Opus.CeltSyms.endBandOf bandwidth, C := nCh, LM := 1 } R.length (decInit R R.length) rr) :
+    ∃ o, decodeOpusFrame 1000 bandwidth nCh ms10 false st
+        (silkRedFrame buf maxData (silkCfg bandwidth nCh ms10) pk c2s R rr).payload = .ok o ∧
+      o.redundancy = 1 ∧ o.celtToSilk = c2s ∧ o.redundancyBytes = R.length ∧ o.dec.error = 0 ∧
+      o.dec.rng = (encRun (encInit buf (maxData - 1)) (packetOps (silkCfg bandwidth nCh ms10) pk ++ redSigOps false true 1 c2s R.length)).rng ∧
+      o.evs = packetEvs (silkCfg bandwidth nCh ms10) pk (fun j =>
+        ((encRun (encInit buf (maxData - 1)) (prefixOps (silkCfg bandwidth nCh ms10) pk j)).rng,
+         tell (encRun (encInit buf (maxData - 1)) (prefixOps (silkCfg bandwidth nCh ms10) pk j)))) ∧
+      decRangeFinal 1000 bandwidth nCh spf48 (silkRedFrame buf maxData (silkCfg bandwidth nCh ms10) pk c2s R rr).payload o =
+        .ok (silkRedFrame buf maxData (silkCfg bandwidth nCh ms10) pk c2s R rr).rangeFinal :=
+  opus_frame_lockstep_silk_red_all buf maxData bandwidth nCh ms10 spf48 pk st c2s R rr hbw hms hs hb hok hc2s hR hn herr hfit hgate hred
+
+/-- A 3-byte redundancy frame that C03's CELT decoder model accepts, and its final range. -/
+def exampleRed : List Nat := [10, 200, 33]
+
+open Opus.OpusFrameEnc in
+example : CeltFrameRT { start := 0, end_ := Opus.CeltSyms.endBandOf 1101, C := 1, LM := 1 } exampleRed.length
+    (decInit exampleRed exampleRed.length) 56531000 := by
+  have h1 : (match Opus.CeltBands.celtFrame { start := 0, end_ := Opus.CeltSyms.endBandOf 1101, C := 1, LM := 1 } exampleRed.length
+      (decInit exampleRed exampleRed.length) with | .ok cf => cf.fin.c.rng | _ => 0) = 56531000 := by decide +kernel
+  unfold CeltFrameRT
+  generalize Opus.CeltBands.celtFrame { start := 0, end_ := Opus.CeltSyms.endBandOf 1101, C := 1, LM := 1 } exampleRed.length
+      (decInit exampleRed exampleRed.length) = r at h1
+  cases r with
+  | ok cf => exact ⟨cf, rfl, h1⟩
+  | err e => simp at h1
+  | oob => simp at h1
+  | abort => simp at h1
+
+open Opus.SilkSyms Opus.SilkSymsEnc Opus.OpusFrameEnc in
+example : (encodeAll (List.replicate 100 170) 100 (packetOps (silkCfg 1101 1 100) exampleMonoPacket ++ redSigOps false true 1 0 3)).error = 0 ∧
+    tell (encRun (encInit (List.replicate 100 170) 100) (packetOps (silkCfg 1101 1 100) exampleMonoPacket ++ redSigOps false true 1 0 3)) = 248 ∧
+    (247 : Int) + 17 ≤ 8 * ((248 + 7) / 8 + 3) ∧
+    (silkRedFrame (List.replicate 100 170) 101 (silkCfg 1101 1 100) exampleMonoPacket 0 exampleRed 56531000).payload.length = 34 ∧
+    (match decodeOpusFrame 1000 1101 1 100 false {} (silkRedFrame (List.replicate 100 170) 101 (silkCfg 1101 1 100) exampleMonoPacket 0 exampleRed 56531000).payload with
+     | .ok o => (match decRangeFinal 1000 1101 1 480 (silkRedFrame (List.replicate 100 170) 101 (silkCfg 1101 1 100) exampleMonoPacket 0 exampleRed 56531000).payload o with
+                 | .ok r => decide (r = (silkRedFrame (List.replicate 100 170) 101 (silkCfg 1101 1 100) exampleMonoPacket 0 exampleRed 56531000).rangeFinal ∧ o.redundancy = 1 ∧ o.redundancyBytes = 3)
+                 | _ => false)
+     | _ => false) = true := by
+  decide +kernel
+
+open Opus.SilkSyms Opus.SilkSymsEnc Opus.SilkSymsEncProofs Opus.OpusFrameEnc Opus.OpusFrameProofs in
+/-- Frame-level lock step for a HYBRID frame: SILK part, redundancy signalling and CELT part share one range coder
+    (opus_encoder.c:2239-2292, 2365-2378, 2421).  Encoder model `hybridFrame`: `packetOps`, then — if the encoder's budget
+    test `gate` passed — `ec_enc_bit_logp(redundancy, 12)` and with redundancy `ec_enc_bit_logp(celt_to_silk, 1)`,
+    `ec_enc_uint(redundancy_bytes-2, 256)`; `ec_enc_shrink(nb_compr_bytes)`; the CELT encoder's operations `celtOps` (an
+    input: whatever `celt_encode_with_ec` does on the shared coder, its own shrink included) and its `ec_enc_done`; the frame
+    is the main part followed by the redundancy bytes `R`; `rangeFinal = enc.rng ^ rr`.
+    Decoder: C03's `decodeOpusFrame` (SILK part + redundancy parse) on the whole frame.  Proved: it reports the encoded
+    SILK events, parses `(redundancy, celt_to_silk, redundancy_bytes)` as signalled, sets `len` / `dec.storage` to the length
+    of the main part, and hands over to the CELT decoder IN LOCK STEP with the encoder behind the signalling (`dec.rng`,
+    `ec_tell` equal, error flag clear) — prefix `P0 = packetOps ++ redSigOps` in the sense of C17's header theorem.
+    From there the CELT layers enter as hypotheses `CeltFrameRT` (main part on the shared coder, from the handed-over
+    state; redundancy frame on its own coder): with them `decRangeFinal = rangeFinal`.
+    Remaining hypotheses besides those: DSP decisions as inputs; legality of the CELT operations (`hsuf`); `hgate`
+    (decoder's length test ⇔ encoder's budget test) and `hsane` (`ec_tell ≤ 8·len` after the signalling) — the two
+    contracts C02's `redundancy_mirror_hybrid_partial` isolates; a non-empty main part; `ec_enc_done` without error. -/
+theorem opus_frame_lockstep_hybrid (buf : List Nat) (maxData bandwidth nCh ms10 spf48 : Nat) (pk : PacketIn) (st : SilkSt)
+    (gate : Bool) (red c2s : Nat) (celtOps : List Op) (R : Bytes) (rr : Nat)
+    (hms : ms10 = 100 ∨ ms10 = 200)
+    (hs : maxData - 1 ≤ buf.length) (hb : BytesOk buf) (hok : PacketOk (hybridCfg nCh ms10) pk)
+    (hred : red ≤ 1) (hc2s : c2s ≤ 1) (hR : BytesOk R)
+    (hrb : red ≠ 0 → 2 ≤ R.length ∧ R.length ≤ 257) (hR0 : ¬ (gate = true ∧ red ≠ 0) → R = [])
+    (hsuf : LegalRun (encRun (encInit buf (maxData - 1)) (packetOps (hybridCfg nCh ms10) pk ++ redSigOps true gate red c2s R.length))
+      (Op.shrink (maxData - 1 - R.length) :: celtOps))
+    (hn : (encodeAll buf (maxData - 1) (hybridOps maxData (hybridCfg nCh ms10) pk gate red c2s R.length celtOps)).nbitsTotal < 4294967296)
+    (herr : (encodeAll buf (maxData - 1) (hybridOps maxData (hybridCfg nCh ms10) pk gate red c2s R.length celtOps)).error = 0)
+    (hgate : (tell (encRun (encInit buf (maxData - 1)) (packetOps (hybridCfg nCh ms10) pk)) + 17 + 20 ≤
+        8 * (((encodeAll buf (maxData - 1) (hybridOps maxData (hybridCfg nCh ms10) pk gate red c2s R.length celtOps)).storage + R.length : Nat) : Int)) ↔
+      gate = true)
+    (hsane : tell (encRun (encInit buf (maxData - 1)) (packetOps (hybridCfg nCh ms10) pk ++ redSigOps true gate red c2s R.length)) ≤
+      8 * (((encodeAll buf (maxData - 1) (hybridOps maxData (hybridCfg nCh ms10) pk gate red c2s R.length celtOps)).storage : Nat) : Int))
+    (hmainpos : 0 < (encodeAll buf (maxData - 1) (hybridOps maxData (hybridCfg nCh ms10) pk gate red c2s R.length celtOps)).storage) :
+    ∃ o, decodeOpusFrame 1001 bandwidth nCh ms10 false st
+        (hybridFrame buf maxData (hybridCfg nCh ms10) pk gate red c2s celtOps R rr).payload = .ok o ∧
+      o.redundancy = (if gate = true ∧ red ≠ 0 then 1 else 0) ∧
+      o.celtToSilk = (if gate = true ∧ red ≠ 0 then c2s else 0) ∧ o.redundancyBytes = R.length ∧
+      o.len = ((encodeAll buf (maxData - 1) (hybridOps maxData (hybridCfg nCh ms10) pk gate red c2s R.length celtOps)).storage : Int) ∧
+      o.evs = packetEvs (hybridCfg nCh ms10) pk (fun j =>
+        ((encRun (encInit buf (maxData - 1)) (prefixOps (hybridCfg nCh ms10) pk j)).rng,
+         tell (encRun (encInit buf (maxData - 1)) (prefixOps (hybridCfg nCh ms10) pk j)))) ∧
+      o.dec.error = 0 ∧
+      o.dec.rng = (encRun (encInit buf (maxData - 1)) (packetOps (hybridCfg nCh ms10) pk ++ redSigOps true gate red c2s R.length)).rng ∧
+      tell o.dec = tell (encRun (encInit buf (maxData - 1)) (packetOps (hybridCfg nCh ms10) pk ++ redSigOps true gate red c2s R.length)) ∧
+      o.dec.storage = (encodeAll buf (maxData - 1) (hybridOps maxData (hybridCfg nCh ms10) pk gate red c2s R.length celtOps)).storage ∧
+      (CeltFrameRT { start := 17, end_ := Opus.CeltSyms.endBandOf bandwidth, C := nCh, LM := Opus.CeltSyms.lmOf spf48 } o.len.toNat o.dec
+          (encodeAll buf (maxData - 1) (hybridOps maxData (hybridCfg nCh ms10) pk gate red c2s R.length celtOps)).rng →
+        (gate = true ∧ red ≠ 0 →
+          CeltFrameRT { start := 0, end_ := Opus.CeltSyms.endBandOf bandwidth, C := nCh, LM := 1 } R.length (decInit R R.length) rr) →
+        (¬ (gate = true ∧ red ≠ 0) → rr = 0) →
+        decRangeFinal 1001 bandwidth nCh spf48 (hybridFrame buf maxData (hybridCfg nCh ms10) pk gate red c2s celtOps R rr).payload o =
+          .ok (hybridFrame buf maxData (hybridCfg nCh ms10) pk gate red c2s celtOps R rr).rangeFinal) :=
+  opus_frame_lockstep_hybrid_all buf maxData bandwidth nCh ms10 spf48 pk st gate red c2s celtOps R rr hms hs hb hok hred hc2s hR
+    hrb hR0 hsuf hn herr hgate hsane hmainpos
+
+/-- WB mono 10 ms SILK part of a hybrid frame (unvoiced, a few pulses). -/
+def exampleHybPacket : Opus.SilkSymsEnc.PacketIn :=
+  { ch0 := { vad := [1], lbrrFlags := [0], lbrr := [], frames := [⟨{ signalType := 1, quantOffsetType := 0, gains := [30, 5], nlsf0 := 3, nlsfRes := [0, 1, -1, 0, 2, 0, 0, -2, 0, 0, 1, 0, 0, 0, -1, 0], interp := 4, lagIndex := 0, contourIndex := 0, perIndex := 0, ltp := [], ltpScale := 0, seed := 2 }, (List.range 160).map (fun (i : Nat) => if i % 17 = 0 then 1 else if i % 29 = 0 then -2 else 0)⟩], prev := {} },
+    ch1 := default, predIx := [], midOnly := [], lbrrPredIx := [], lbrrMidOnly := [] }
+
+open Opus.SilkSyms Opus.SilkSymsEnc Opus.SilkSymsEncProofs Opus.OpusFrameEnc in
+example : PacketOk (hybridCfg 1 100) exampleHybPacket :=
+  ⟨by decide, by decide, by decide, by decide, by decide +kernel, by decide +kernel, by decide +kernel,
+   by decide +kernel, by decide +kernel, by decide +kernel⟩
+
+/-- The hypotheses of `opus_frame_lockstep_hybrid` on a concrete frame: budget 61 bytes, redundancy flag 0, and a
+    stand-in for the CELT part that uses both ends of the buffer (a symbol and three raw bits). -/
+example :
+    LegalRun (encRun (encInit (List.replicate 60 170) 60) (Opus.SilkSymsEnc.packetOps (Opus.OpusFrameEnc.hybridCfg 1 100) exampleHybPacket ++
+        Opus.OpusFrameEnc.redSigOps true true 0 0 0)) (Op.shrink (60 - 0) :: [.bitLogp 0 15, .bits 5 3]) ∧
+    (encodeAll (List.replicate 60 170) 60 (Opus.OpusFrameEnc.hybridOps 61 (Opus.OpusFrameEnc.hybridCfg 1 100) exampleHybPacket true 0 0 0 [.bitLogp 0 15, .bits 5 3])).error = 0 ∧
+    (encodeAll (List.replicate 60 170) 60 (Opus.OpusFrameEnc.hybridOps 61 (Opus.OpusFrameEnc.hybridCfg 1 100) exampleHybPacket true 0 0 0 [.bitLogp 0 15, .bits 5 3])).storage = 60 ∧
+    tell (encRun (encInit (List.replicate 60 170) 60) (Opus.SilkSymsEnc.packetOps (Opus.OpusFrameEnc.hybridCfg 1 100) exampleHybPacket)) + 17 + 20 ≤ 8 * 60 ∧
+    (match Opus.SilkSyms.decodeOpusFrame 1001 1104 1 100 false {}
+        (Opus.OpusFrameEnc.hybridFrame (List.replicate 60 170) 61 (Opus.OpusFrameEnc.hybridCfg 1 100) exampleHybPacket true 0 0 [.bitLogp 0 15, .bits 5 3] [] 0).payload with
+     | .ok o => decide (o.redundancy = 0 ∧ o.len = 60 ∧ o.dec.rng =
+         (encRun (encInit (List.replicate 60 170) 60) (Opus.SilkSymsEnc.packetOps (Opus.OpusFrameEnc.hybridCfg 1 100) exampleHybPacket ++
+           Opus.OpusFrameEnc.redSigOps true true 0 0 0)).rng)
      | _ => false) = true := by
   decide +kernel
 
